@@ -4,6 +4,7 @@ import (
 	"fmt"
 	"go/token"
 	"go/types"
+	"unicode/utf8"
 
 	"gosx/smt"
 
@@ -953,6 +954,7 @@ type rangeIter struct {
 	str  string
 	isS  bool
 	perm []int
+	bs   []*smt.Term // range over a string with symbolic bytes
 }
 
 func (in *Interp) rangeInit(x Value) Value {
@@ -967,7 +969,11 @@ func (in *Interp) rangeInit(x Value) Value {
 	case KStr:
 		s, ok := x.ConcStr()
 		if !ok {
-			unsupported("range over symbolic string")
+			bs, ok := in.ropeBytes(x)
+			if !ok {
+				unsupported("range over a string with opaque parts")
+			}
+			return Value{K: KOpaque, R: &rangeIter{bs: bs, isS: true}}
 		}
 		return Value{K: KOpaque, R: &rangeIter{str: s, isS: true}}
 	}
@@ -977,6 +983,15 @@ func (in *Interp) rangeInit(x Value) Value {
 
 func (in *Interp) rangeNext(itv Value, ins *ssa.Next) Value {
 	it := itv.R.(*rangeIter)
+	if ins.IsString && it.bs != nil {
+		if it.i >= len(it.bs) {
+			return Value{K: KTuple, R: []Value{mkBool(false), mkInt(0, 64), mkInt(0, 32)}}
+		}
+		pos := it.i
+		r, w, _ := in.decodeRuneSym(it.bs, it.i)
+		it.i += w
+		return Value{K: KTuple, R: []Value{mkBool(true), mkInt(uint64(pos), 64), r}}
+	}
 	if ins.IsString {
 		if it.i >= len(it.str) {
 			return Value{K: KTuple, R: []Value{mkBool(false), mkInt(0, 64), mkInt(0, 32)}}
@@ -984,7 +999,8 @@ func (in *Interp) rangeNext(itv Value, ins *ssa.Next) Value {
 		for j, r := range it.str[it.i:] {
 			_ = j
 			pos := it.i
-			it.i += len(string(r))
+			_, w := utf8.DecodeRuneInString(it.str[it.i:]) // an ill-formed byte yields U+FFFD of width 1
+			it.i += w
 			return Value{K: KTuple, R: []Value{mkBool(true), mkInt(uint64(pos), 64), mkInt(uint64(r), 32)}}
 		}
 	}
